@@ -602,6 +602,23 @@ func (ep *episode) monitors(run *hx.Run, calls []call, obs []*callObs, pre, post
 			}
 		}
 	}
+	// a share that signs different data for the same key must be rejected (single calls only: with two
+	// racing calls the stored partial may have been evicted by the other call in the meantime)
+	if len(calls) == 1 && calls[0].status != 'X' {
+		c := calls[0]
+		for _, e := range c.entries {
+			if e.sub < 0 {
+				continue
+			}
+			k := parsigdb.VerifKey{Duty: c.duty(), PubKey: ep.pks[e.pk], SubcommIdx: core.SubcommitteeIndex(e.sub)}
+			mine := ident(ep.parSig(c, e))
+			for _, p := range pre.Entries[k] {
+				if p.ShareIdx == e.share && ident(p) != mine && obs[0].err == "ok" {
+					run.Violate("parsigdb:equivocation_accepted", fmt.Sprintf("share %d sent different data for %s and the call returned no error", e.share, ep.keyStr(k)))
+				}
+			}
+		}
+	}
 	// threshold callbacks: payload soundness and at-most-once
 	anyEntryErr := false
 	for i, o := range obs {
@@ -798,6 +815,13 @@ func (d *driver) doTrim(slot uint64, typ int) {
 	ep.dl.ch <- core.Duty{} // received only after the previous duty was fully processed
 	post := ep.db.VerifSnapshot()
 	ep.monitors(d.run, nil, nil, pre, post, &duty)
+	if ep.status[duty] != 'E' {
+		for k, v := range post.Entries {
+			if k.Duty == duty && len(v) > 0 {
+				d.run.Violate("parsigdb:trim_left_entries", fmt.Sprintf("%s still stored after its duty was trimmed", ep.keyStr(k)))
+			}
+		}
+	}
 	if ep.status[duty] != 'E' {
 		ep.status[duty] = 'X'
 	}
